@@ -629,3 +629,66 @@ pub fn ga_request(rp: &str, allow: Option<Vec<Vec<u8>>>, rk: bool, up: bool, uv:
 pub fn hex(b: &[u8]) -> String {
     b.iter().map(|x| format!("{x:02x}")).collect()
 }
+
+// ------------------------------------------------------------------------------------------
+// WebAuthn-level request builders
+
+pub struct Reg {
+    pub rp_id: Option<String>,
+    pub challenge: Vec<u8>,
+    pub user_id: Vec<u8>,
+    pub user_name: String,
+    pub params: Vec<webauthn::PublicKeyCredentialParameters>,
+    pub exclude: Option<Vec<Vec<u8>>>,
+    pub selection: Option<webauthn::AuthenticatorSelectionCriteria>,
+    pub extensions: Option<webauthn::AuthenticationExtensionsClientInputs>,
+}
+impl Default for Reg {
+    fn default() -> Self {
+        Reg { rp_id: None, challenge: vec![1, 2, 3, 4], user_id: vec![9, 9], user_name: "user".into(), params: vec![es256_param()], exclude: None, selection: None, extensions: None }
+    }
+}
+pub fn creation_options(r: Reg) -> webauthn::CredentialCreationOptions {
+    webauthn::CredentialCreationOptions {
+        public_key: webauthn::PublicKeyCredentialCreationOptions {
+            rp: webauthn::PublicKeyCredentialRpEntity { id: r.rp_id, name: "rp".into() },
+            user: webauthn::PublicKeyCredentialUserEntity { id: r.user_id.into(), name: r.user_name.clone(), display_name: r.user_name },
+            challenge: r.challenge.into(),
+            pub_key_cred_params: r.params,
+            timeout: None,
+            exclude_credentials: r.exclude.map(|l| l.iter().map(|i| descriptor(i)).collect()),
+            authenticator_selection: r.selection,
+            hints: None,
+            attestation: Default::default(),
+            attestation_formats: None,
+            extensions: r.extensions,
+        },
+    }
+}
+pub struct Auth {
+    pub rp_id: Option<String>,
+    pub challenge: Vec<u8>,
+    pub allow: Option<Vec<Vec<u8>>>,
+    pub uv: webauthn::UserVerificationRequirement,
+    pub extensions: Option<webauthn::AuthenticationExtensionsClientInputs>,
+}
+impl Default for Auth {
+    fn default() -> Self {
+        Auth { rp_id: None, challenge: vec![1, 2, 3, 4], allow: None, uv: Default::default(), extensions: None }
+    }
+}
+pub fn request_options(a: Auth) -> webauthn::CredentialRequestOptions {
+    webauthn::CredentialRequestOptions {
+        public_key: webauthn::PublicKeyCredentialRequestOptions {
+            challenge: a.challenge.into(),
+            timeout: None,
+            rp_id: a.rp_id,
+            allow_credentials: a.allow.map(|l| l.iter().map(|i| descriptor(i)).collect()),
+            user_verification: a.uv,
+            hints: None,
+            attestation: Default::default(),
+            attestation_formats: None,
+            extensions: a.extensions,
+        },
+    }
+}
